@@ -345,6 +345,61 @@ Proof.
   - intros [Hlt H]. split; [exact Hlt|]. intros t. rewrite Hiff. apply H.
 Qed.
 
+(* ... which pins the list itself: instants_of_wall is duplicate-free and ascending *)
+Lemma NoDup_insert y l : ~ In y l -> NoDup l -> NoDup (insert_z y l).
+Proof.
+  induction l as [|a r IH]; intros Hn Hd; cbn [insert_z]; [constructor; [exact Hn|constructor]|].
+  destruct (y <=? a); [constructor; assumption|].
+  inversion Hd as [|? ? Ha Hr]; subst. constructor.
+  - rewrite In_insert. intros [->|H]; [apply Hn; left; reflexivity|contradiction].
+  - apply IH; [intros H; apply Hn; right; exact H|exact Hr].
+Qed.
+Lemma NoDup_sort l : NoDup l -> NoDup (sort_z l).
+Proof.
+  induction 1 as [|a r Ha Hr IH]; cbn [sort_z fold_right]; [constructor|].
+  fold (sort_z r). apply NoDup_insert; [rewrite In_sort; exact Ha|exact IH].
+Qed.
+Lemma instants_of_wall_nodup z l : NoDup (instants_of_wall z l).
+Proof. unfold instants_of_wall, instants_of_wall_among. apply NoDup_sort, NoDup_dedup. Qed.
+
+Definition cand_instants (l : Z) (m : mlt ltt) : list Z :=
+  match m with
+  | MNone => []
+  | MSingle x => [l - ut_offset x]
+  | MAmbiguous x y => [l - ut_offset x; l - ut_offset y]
+  end.
+Lemma classified_list z l m : classified z l m -> instants_of_wall z l = cand_instants l m.
+Proof.
+  unfold classified. cbv zeta. pose proof (instants_of_wall_nodup z l) as Hnd.
+  pose proof (instants_of_wall_asc z l) as Hasc.
+  destruct m as [|x|x y]; cbn [cand_instants]; [tauto| |].
+  - intros H. destruct (instants_of_wall z l) as [|a [|b r]].
+    + exfalso. apply (H (l - ut_offset x)). reflexivity.
+    + f_equal. apply H. left. reflexivity.
+    + exfalso. inversion Hnd as [|? ? Hna _]; subst.
+      assert (a = l - ut_offset x) by (apply H; left; reflexivity).
+      assert (b = l - ut_offset x) by (apply H; right; left; reflexivity).
+      apply Hna. left. congruence.
+  - intros [Hlt H]. destruct (instants_of_wall z l) as [|a [|b [|c r]]].
+    + exfalso. apply (H (l - ut_offset x)). left. reflexivity.
+    + exfalso. assert (E1 : l - ut_offset x = a) by (destruct (proj2 (H (l - ut_offset x)) (or_introl eq_refl)) as [E|[]]; congruence).
+      assert (E2 : l - ut_offset y = a) by (destruct (proj2 (H (l - ut_offset y)) (or_intror eq_refl)) as [E|[]]; congruence).
+      lia.
+    + inversion Hnd as [|? ? Hna _]; subst.
+      assert (Ha : a = l - ut_offset x \/ a = l - ut_offset y) by (apply H; left; reflexivity).
+      assert (Hb : b = l - ut_offset x \/ b = l - ut_offset y) by (apply H; right; left; reflexivity).
+      assert (a <> b) by (intros ->; apply Hna; left; reflexivity).
+      cbn [asc] in Hasc. f_equal; [|f_equal]; lia.
+    + exfalso. inversion Hnd as [|? ? Hna Hnd']; subst. inversion Hnd' as [|? ? Hnb _]; subst.
+      assert (Ha : a = l - ut_offset x \/ a = l - ut_offset y) by (apply H; left; reflexivity).
+      assert (Hb : b = l - ut_offset x \/ b = l - ut_offset y) by (apply H; right; left; reflexivity).
+      assert (Hc : c = l - ut_offset x \/ c = l - ut_offset y) by (apply H; right; right; left; reflexivity).
+      assert (a <> b) by (intros ->; apply Hna; left; reflexivity).
+      assert (a <> c) by (intros ->; apply Hna; right; left; reflexivity).
+      assert (b <> c) by (intros ->; apply Hnb; left; reflexivity).
+      lia.
+Qed.
+
 Theorem composite_classification z ps first a l :
   let k := utc_year l in let r := conv_rule a in
   let cz := mk_szone (ut_offset first) (offs ps) (Some (inr r)) in
